@@ -6,6 +6,8 @@ Driver protocol (lib.run_impl): JSON payload on stdin, result JSON as the last l
   payload: {"backend": "json"|"xml"|"junit", "old": <report description>|null, "new": <report description>}
   result : {"backend", "final", "ops", "chunks_len", "states": [{"k","exit","fs","present","loadable","loaded","error"}],
             "old_given"} + a few extra diagnostic keys ("encoding", "ref_exit", "save_error", "old_equals_new").
+           When the OLD report cannot even be saved normally: ops = states = [] and "setup_error": "<class>: <message>".
+           "save_error": exception class name raised by the (uncrashed) save of the NEW report, or null.
 `--selftest` prints the op sequence and the per-crash-point observations for each backend, with and without an old report.
 
 Operations (paths relative to the report directory D; only paths under D are traced):
@@ -394,6 +396,9 @@ def run(payload):
             time.time = lambda: T_OLD
             try:
                 backend.save_report(final, gen_reports.build_report(old))
+            except Exception as e:  # the old report itself cannot be saved: nothing to experiment on
+                return {"backend": backend_name, "final": final_name, "ops": [], "chunks_len": [], "states": [],
+                        "old_given": True, "setup_error": "%s: %s" % (type(e).__name__, e)}
             finally:
                 time.time = _REAL["time"]
             old_bytes = _files(root)[final_name]
